@@ -358,8 +358,12 @@ pub fn run_cluster(sc: &Scenario, prop: &str) -> Result<RunResult, String> {
         }
         // every cycle polls every member and re-syncs what changed; after the faults stopped
         // each cycle is a completed exchange with every peer. Give it six cycles.
+        // a fetch that fails (injected document-read failure on the peer) stalls that poller for
+        // its 5 s progress timeout before the next cycle retries: every configured read failure
+        // may still lie ahead, so each one extends the window
+        let read_faults: u64 = sc.cfg.nodes.iter().map(|n| n.storage_read_faults.len() as u64).sum();
         let t = cl.elapsed_ms();
-        step(&mut cl, t + 6 * sc.cfg.repair_interval_ms + 8_000)?;
+        step(&mut cl, t + 6 * sc.cfg.repair_interval_ms + 8_000 + 6_000 * read_faults)?;
         out.probe("closing_by_background_poller");
     } else {
         let mut pairs: Vec<(u8, u8)> = Vec::new();
@@ -372,6 +376,8 @@ pub fn run_cluster(sc: &Scenario, prop: &str) -> Result<RunResult, String> {
         }
         let mut rng = rng_from(sc.closing_seed);
         pairs.shuffle(&mut rng);
+        // every configured document-read failure may still lie ahead and fail one attempt
+        let max_tries: u32 = 3 + sc.cfg.nodes.iter().map(|n| n.storage_read_faults.len() as u32).sum::<u32>();
         let mut rep_id = 0usize;
         let mut queue: std::collections::VecDeque<(u8, u8, u32)> = pairs.iter().map(|(a, b)| (*a, *b, 0)).collect();
         let width = if sc.closing_parallel { 2 } else { 1 };
@@ -406,15 +412,15 @@ pub fn run_cluster(sc: &Scenario, prop: &str) -> Result<RunResult, String> {
                         out.probe("closing_exchange_completed");
                     },
                     Some(Ok(unsynced)) => {
-                        if tries < 3 {
+                        if tries < max_tries {
                             queue.push_back((a, b, tries + 1));
                             out.probe("closing_exchange_repeated");
                         } else {
-                            incomplete.push(format!("exchange {a}<-{b} still reports keyspaces {:?} unsynced after 4 attempts", unsynced));
+                            incomplete.push(format!("exchange {a}<-{b} still reports keyspaces {:?} unsynced after {} attempts", unsynced, max_tries + 1));
                         }
                     },
                     Some(Err(e)) => {
-                        if tries < 3 {
+                        if tries < max_tries {
                             queue.push_back((a, b, tries + 1));
                             out.probe("closing_exchange_rpc_error_retried");
                         } else {
@@ -582,6 +588,7 @@ pub fn gen_cluster_scenario(rng: &mut rand::rngs::SmallRng, k: &GenKnobs) -> Sce
             storage_faults: if rng.gen_bool(0.15) { vec![(rng.gen_range(1..20), rng.gen_range(0..3))] } else { vec![] },
             storage_latency_max_ms: if rng.gen_bool(0.3) { rng.gen_range(1..30) } else { 0 },
             storage_scan_latency_max_ms: 0,
+            storage_read_faults: if rng.gen_bool(0.25) { (0..rng.gen_range(1..=4)).map(|_| rng.gen_range(1..25)).collect() } else { vec![] },
         })
         .collect();
     let explicit_only = rng.gen_bool(0.5);
@@ -712,7 +719,7 @@ pub fn gen_cluster_scenario(rng: &mut rand::rngs::SmallRng, k: &GenKnobs) -> Sce
 pub fn gen_burst_scenario(rng: &mut rand::rngs::SmallRng) -> Scenario {
     let n = rng.gen_range(2..=3usize);
     let nodes: Vec<NodeCfg> = (1..=n as u8)
-        .map(|id| NodeCfg { id, dc: "dc0".into(), skew_ms: if rng.gen_bool(0.3) { rng.gen_range(-60_000..60_000) } else { 0 }, storage_faults: vec![], storage_latency_max_ms: rng.gen_range(3..40), storage_scan_latency_max_ms: 0 })
+        .map(|id| NodeCfg { id, dc: "dc0".into(), skew_ms: if rng.gen_bool(0.3) { rng.gen_range(-60_000..60_000) } else { 0 }, storage_faults: vec![], storage_latency_max_ms: rng.gen_range(3..40), storage_scan_latency_max_ms: 0, storage_read_faults: if rng.gen_bool(0.4) { (0..rng.gen_range(1..=5)).map(|_| rng.gen_range(1..30)).collect() } else { vec![] } })
         .collect();
     let cfg = ClusterCfg {
         nodes,
@@ -779,6 +786,7 @@ pub fn gen_real_scenario(rng: &mut rand::rngs::SmallRng) -> Scenario {
             storage_faults: if rng.gen_bool(0.1) { vec![(rng.gen_range(1..20), rng.gen_range(0..3))] } else { vec![] },
             storage_latency_max_ms: if rng.gen_bool(0.4) { rng.gen_range(1..40) } else { 0 },
             storage_scan_latency_max_ms: if rng.gen_bool(0.5) { rng.gen_range(5..150) } else { 0 },
+            storage_read_faults: if rng.gen_bool(0.25) { (0..rng.gen_range(1..=4)).map(|_| rng.gen_range(1..25)).collect() } else { vec![] },
         })
         .collect();
     let mut jitter_sites = Vec::new();
@@ -893,10 +901,11 @@ pub fn shrink_cluster(sc: &Value) -> Vec<Value> {
         let mut v = sc.clone();
         let mut changed = false;
         for (i, n) in nodes.iter().enumerate() {
-            if n["skew_ms"].as_i64().unwrap_or(0) != 0 || n["storage_latency_max_ms"].as_u64().unwrap_or(0) != 0 || n["storage_faults"].as_array().map(|a| !a.is_empty()).unwrap_or(false) {
+            if n["skew_ms"].as_i64().unwrap_or(0) != 0 || n["storage_latency_max_ms"].as_u64().unwrap_or(0) != 0 || n["storage_faults"].as_array().map(|a| !a.is_empty()).unwrap_or(false) || n["storage_read_faults"].as_array().map(|a| !a.is_empty()).unwrap_or(false) {
                 v["cfg"]["nodes"][i]["skew_ms"] = serde_json::json!(0);
                 v["cfg"]["nodes"][i]["storage_latency_max_ms"] = serde_json::json!(0);
                 v["cfg"]["nodes"][i]["storage_faults"] = serde_json::json!([]);
+                v["cfg"]["nodes"][i]["storage_read_faults"] = serde_json::json!([]);
                 changed = true;
             }
         }
